@@ -19,6 +19,17 @@ CLAIMED = {
         "Trusted: CPython semantics as encoded (T-PY), z3/cvc5 (T-SMT), the engine (T-ENG); Arpeggio's "
         "pos_to_linecol and node positions (T-ARP). The processor is an External callable (universally quantified).",
         "DESIGN.md 5/C33, 2.10", ""),
+    "C25": (
+        "TextXMetaModel.__getitem__ proved: an unqualified name resolves to the current file's rule if it defines one, "
+        "else to the first imported namespace in list order that defines it (loop invariant: no earlier namespace "
+        "defines it), else KeyError. _new_import proved: the imported namespace is appended after the previously "
+        "imported ones, the file is loaded iff its namespace is not yet known, and the namespace is registered before "
+        "the file is loaded (diamonds and cycles yield one set of classes). _enter_namespace (base types searched "
+        "first, existing namespaces kept) and _cls_fqn (file-based qualified names) proved.",
+        "== / `in` on dicts and lists is modelled as identity-or-structural (an uninterpreted over-approximation); "
+        "os.path arithmetic (namespace name of a file) is uninterpreted. Qualified lookups through referenced languages "
+        "go through an External metamodel_for_language.",
+        "DESIGN.md 5/C25", ""),
     "C26": (
         "Every operation of registration.py is proved against a whole-view contract over the abstract registry state "
         "(languages: None or dict lower-case name -> description; generators: two-level dict; metamodels cache): "
